@@ -192,21 +192,25 @@ CHECKS = {
             "process in the same instant is not displaced (non-preemptive). Defect repaired: /repo 0e96376 (SP served one packet per "
             "class per pass).",
             "DESIGN.md section 4 C13, section 8"),
-    "C16": ("15 theorems: the ACK is the contiguous received prefix and monotone for every arrival sequence (C16_ack_is_prefix, "
+    "C16": ("20 theorems: the ACK is the contiguous received prefix and monotone for every arrival sequence (C16_ack_is_prefix, "
             "C16_ack_monotone, refutation of the pinned ACK choice); the repaired sender never raises for every Ack/Expire/StoreCb/Wake "
             "history; in every reachable state of the closed loop (sender, sink, two constant-delay wires, any finite drop sets per "
             "direction, Reno/CUBIC) nothing raises, last_ack <= sink prefix <= next_seq, last_ack is monotone, an unfinished transfer has "
             "an armed timer event or a runnable sender on the agenda (cannot stop early), and a quiescent loop has delivered everything; a "
-            "retransmission happens only at the segment's own timer expiry or at a third-or-later duplicate ACK. 1000 (quick) / 20000 "
+            "retransmission happens only at the segment's own timer expiry or at a third-or-later duplicate ACK; over a loss-free path with "
+            "RTT below the RTO no segment is transmitted twice (C16_lossfree_no_retransmit, full) and the loss-free loop terminates "
+            "quiescent with everything delivered within an explicit fuel bound (C16_lossfree_terminates); the work of the loop is bounded "
+            "by the number of transmissions; the TCPSink.put body translated from /repo on every run equals the model (C16_gen_sink_put). 1000 (quick) / 20000 "
             "(thorough) cases per run: sink sequences, whole closed-loop runs of the real sender/sink/wires compared event by event and "
             "instant by instant, sender-alone histories.",
-            "PARTIAL: (1) 'finitely many drops => eventually complete' is liveness: the safety half is proved (cannot go quiescent early; "
-            "quiescent => complete), termination is tested by runs to quiescence on random drop patterns. (2) 'loss-free and RTT < RTO => "
-            "no segment sent twice' is monitored and covered by the exact loop correspondence; proved is only the cause of a "
-            "retransmission. Trusted besides the common base: Timer per C19, kernel order per C01, CUBIC cnt oracle. Repairs: 4cddda4 "
+            "PARTIAL in one clause: 'finitely many drops => eventually complete' is liveness: proved are the safety half (cannot go "
+            "quiescent early; quiescent => complete), termination of the loss-free loop, and that only (re)transmissions can keep the loop "
+            "busy; NOT proved is that with a non-empty finite drop set the number of retransmissions is bounded (needs real-time reasoning "
+            "about RTO doubling); it is tested by runs to quiescence on random drop patterns. lossfree_no_retransmit needs rtt0 != 2*delay "
+            "(at equality the timer's Timeout, scheduled earlier, wins the same-instant race against the ACK: a real boundary). Trusted besides the common base: Timer per C19, kernel order per C01, CUBIC cnt oracle. Repairs: 4cddda4 "
             "(sink), 5f98ada, 5f6e664 (sender).",
             "DESIGN.md section 4 C16, section 8"),
-    "C17": ("25 theorems about the Gallina model of TCPPacketGenerator.put/timeout_callback/run and CongestionControl/TCPReno/TCPCubic: "
+    "C17": ("35 theorems about the Gallina model of TCPPacketGenerator.put/timeout_callback/run and CongestionControl/TCPReno/TCPCubic: "
             "send guard and consecutive MSS numbering, window respected at every emission, only a wake-up sends new data, Reno/CUBIC ACK "
             "rules, early duplicates, fast retransmit (ssthresh = max(2 MSS, cwnd/2), cwnd = ssthresh + 3 MSS), further duplicates, "
             "deflate-then-count and no deflation before the third duplicate (the pinned behaviour refuted), timeout rule, RTO formula "
@@ -214,8 +218,11 @@ CHECKS = {
             "including what does not change; plus 5 bridging lemmas for CongestionControl method bodies TRANSLATED from /repo on every run "
             "(second tie, fail closed). Every transition of 700 (quick) / 12000 (thorough) scripted histories on the real sender is "
             "replayed in the model.",
-            "PARTIAL for CUBIC: the cubic / TCP-friendly growth (libm **) is an input oracle (cnt); proved for CUBIC are slow start, the "
-            "counting rule, the shared loss rules and cwnd >= MSS. Float-valued fields are compared within a relative 1e-12 per "
+            "TCPCubic is modelled exactly over Q (Tcp/Cubic.v: C = 2/5, beta = 1/5, (t-K)^3 as an integer power; the cube-root branch is "
+            "proved unreachable because W_last_max is only ever 0): C17_cubic_growth_rule, epoch_start_rule, slow_start_rule, "
+            "cubic_new_ack_rule with the computed cnt; cnt is compared within a relative 1e-5 (max_cnt = cwnd/(W_tcp - cwnd) is "
+            "ill-conditioned in binary64), W_tcp within 1e-9. The translated-body tie covers CongestionControl and TCPReno, not yet the "
+            "TCPCubic methods. Float-valued fields are compared within a relative 1e-12 per "
             "transition from the observed pre-state; theorems are over Q. The translator (props/tcp_common.translate_cc) is part of the "
             "trusted base of this property; a harmless rewrite of a translated method makes the bridging obligations fail "
             "(reported no-failing-input-found). Repair: eae436e.",
